@@ -1,4 +1,4 @@
-\* code: Close waits for the running flush while holding the family mutex -- must violate NoStuck
+\* the code BEFORE the repair of dataFamily.Close (fixed: XFAMILY-F2): Close waits for the running flush while holding the family mutex -- must violate NoStuck
 CONSTANTS
   Leader = {1}
   MaxRow = 2
